@@ -442,7 +442,12 @@ class Fitter:
             self.depth,
             Fragment.from_(type_.create(attrs, content)),
         )
-        self.frontier.append(_FrontierItem(type_, type_.content_match))
+        match = type_.content_match
+        if content is not None and content.child_count:
+            matched = match.match_fragment(content)
+            if matched is not None:
+                match = matched
+        self.frontier.append(_FrontierItem(type_, match))
 
     def close_frontier_node(self) -> None:
         open_ = self.frontier.pop()
